@@ -42,3 +42,9 @@ Example C03_ex_finite_small : ctor KCube 1 1000 3 = RNum 0 [1] true.
 Proof. vm_compute. reflexivity. Qed.
 Example C03_ex_infinite : ctor KSqrt 1 9 6 = RNum 0 [3; 3; 3; 3; 3; 3] false.
 Proof. vm_compute. reflexivity. Qed.
+
+(* the constants these theorems are about are the ones in the Go sources now (Generated/SrcParams.v, rewritten on
+   every run by harness/cmd/srcparams) *)
+Require SrcParamsOK.
+Definition C03_source_constants := (SrcParamsOK.compute_constants_v1, SrcParamsOK.compute_constants_v2, SrcParamsOK.compute_constants_v3,
+  SrcParamsOK.cube_next_digit_identities, SrcParamsOK.format_constants).
